@@ -208,6 +208,8 @@ class _randobj:
                                         fo.c(self)
                                     except Exception as e:
                                         print("Exception while processing constraint: " + str(e))
+                                        pop_constraint_scope()
+                                        clear_exprs()
                                         raise e
                                     fo.set_model(pop_constraint_scope())
                                     model.add_constraint(fo.model)
@@ -221,6 +223,8 @@ class _randobj:
                                         fo.c(self)
                                     except Exception as e:
                                         print("Exception while processing constraint: " + str(e))
+                                        pop_constraint_scope()
+                                        clear_exprs()
                                         raise e
                                     fo.set_model(pop_constraint_scope())
                                     fo.model.is_dynamic = True
@@ -430,6 +434,8 @@ def generator(T):
                                     fo.c(self)
                                 except Exception as e:
                                     print("Exception while processing constraint: " + str(e))
+                                    pop_constraint_scope()
+                                    clear_exprs()
                                     raise e
                                 fo.set_model(pop_constraint_scope())
                                 model.add_constraint(fo.model)
